@@ -16,7 +16,7 @@ DIMS = {
     "arity": ([2, 1, 0], [1, 0]),
     "elem": (ELEMS, ["P2", "DG1", "vP1", "N1curl1", "RT1", "TH", "symP1", "P1+B"]),
     "trial": (["P1", "P2", "DG0", "vP1", "DG1"], ["P2", "DG0"]),
-    "op": (["val", "grad", "divcurl", "dx0", "dxlast", "hess", "comp"], ["grad", "dx0", "comp"]),
+    "op": (["val", "grad", "divcurl", "dx0", "dxlast", "hess", "comp", "csum"], ["grad", "dx0", "comp"]),
     "factor": (["f"] + [x for x in forms.FACTORS if x != "f"], ["one", "fg", "c0", "sqrt", "cond", "gradf", "diam", "normal", "xpoly"]),
     "wrap": (["plain", "condarg", "sum2", "neg"], ["condarg", "sum2"]),
     "quad": (["auto", "deg1", "deg6", "vertex", "GLL3", "two", "two1", "mix2", "same2"], ["deg1", "two", "two1"]),
